@@ -138,10 +138,14 @@ RULE = ("per case: `reset`, `cfg` (command, read mode, back-off budget, forwardi
         "learner, timeout class, busy threshold, caller flags, sync/async entry), `f <fault>` script lines, `go <tail>` (the stores answer "
         "<tail> forever after the script) run the REAL RegionRequestSender over a 3-store mocktikv cluster with a scripted client and "
         "virtualised sleeping; derived lines: `ev send|bump|backoff|result` (observed loop events; the Lean model must accept each one "
-        "and its rank must decrease) and `prop bounded|genuine|writeflags|retrymarked|tsvalid` (property oracle on each side's own "
+        "and its rank must decrease) and `prop bounded|genuine|backoffdiscipline|writeflags|retrymarked|tsvalid` (property oracle on each side's own "
         "observations). Scripts: exhaustive over a reduced alphabet to length 3 (quick: 2, plus a 9-letter core to 3) / 3 plus core to 5 "
         "(thorough) for 6 read modes x {get, prewrite}, then seeded random scripts to length 30 over the full alphabet with random "
-        "configurations. traces_validated = cases; distinct = distinct op lines")
+        "configurations; every answer of the full 40-letter alphabet (all field/content-dependent branches of onRegionError/onSendFail: "
+        "ServerIsBusy reason 'deadline is exceeded', Flashback*, RaftEntryTooLarge, invalid max_ts, KeyNotInRegion, Bucket, Mismatch, "
+        "RegionNotInitialized, ReadIndexNotReady, ProposalInMergingMode, RecoveryInProgress, IsWitness, Undetermined, client/grpc cancel "
+        "and deadline) as forever answer x (mode, cmd) x short/long time-out, and every ordered pair of answers. "
+        "traces_validated = cases; distinct = distinct op lines")
 
 ASSUMPTIONS = [
     "replica SCORING is not modelled: the model does not predict which replica is chosen, it only accounts for it (per-replica attempts, "
